@@ -117,8 +117,8 @@ Proof.
     + intros l0 m. rewrite hs_do_store. destruct (Nat.eqb l0 l); [|apply Hone].
       intros [<-|Hin]; [reflexivity|eapply Hone; eauto].
     + intros u l0. rewrite seen_do_store, hs_do_store.
-      destruct (Nat.eqb u t) eqn:E1, (Nat.eqb l0 l) eqn:E2; cbn [andb length]; try (specialize (Hseen u l0); lia).
-      apply Nat.eqb_eq in E1, E2; subst. specialize (Hseen t l); lia.
+      pose proof (Hseen u l0) as H1. pose proof (Hseen t l) as H2.
+      destruct (Nat.eqb_spec u t) as [->|E1], (Nat.eqb_spec l0 l) as [->|E2]; cbn [andb length]; lia.
     + intros l0. rewrite hs_do_store. cbn. destruct (Nat.eqb_spec l0 l) as [->|Hne]; [|apply Hdh].
       intros _. apply (Hdpc t l). exact Hpt.
     + intros u l0. rewrite Hpcu. cbn. destruct (Nat.eqb u t); [discriminate|apply Hdpc].
